@@ -69,10 +69,9 @@ def run(ctx):
     ctx.rule('R11.2', 'the filter pushes exactly on the false edge of RobotBody::collides(body, &sol, kinematics) for the same sol, sequentially, without re-ordering')
     ctx.rule('R11.3', 'kinematic stack = Tool{Base{OPWKinematics::new_with_constraints(params, constraints), base}, tool}; BaseBody.base_pose from the same base transform; both constructors agree')
     ctx.rule('R11.4', 'positioned_robot pairs joint_meshes[i] with link pose i and the tool with link pose J6 of one forward_with_joint_poses call')
-    rc = prog.find(suffix=KWS + '::remove_collisions')
-    ctx.require(len(rc) == 1, 'KinematicsWithShape::remove_collisions')
-    rc = rc[0]
-    ctx.fn(rc)
+    rc = util.find_role(ctx, 'collision filter of KinematicsWithShape: fn(&self, Vec<[f64; 6]>) -> Vec<[f64; 6]>',
+                        lambda b, sg: b.raw.get('impl_self') == KWS and not b.raw.get('impl_trait') and len(sg) == 3 and
+                        sg[0].replace('std::vec::', '') == 'Vec<[f64; 6]>' and sg[2].replace('std::vec::', '') == 'Vec<[f64; 6]>')
     probs = subset_filter_role(ctx, rc)
     ctx.check(not probs, 'R11.2', 'remove_collisions', rc.where(0), rc.path, '; '.join(probs), detail='push on !collides(sol), sequential')
 
@@ -110,9 +109,15 @@ def _stack(ctx, prog):
     builders = {}
     for b in news:
         ctx.fn(b)
-        params = {n: l for l, n in b.names.items() if 1 <= l <= b.arg_count}
-        ctx.require(all(k in params for k in ('opw_parameters', 'constraints', 'base_transform', 'tool_transform', 'base_mesh', 'tool_mesh', 'joint_meshes', 'collision_environment')),
-                    'constructor parameter names of ' + b.path)
+        # the public constructors are positional API: (parameters, constraints, joint meshes, base mesh, base transform,
+        # tool mesh, tool transform, environment, first_collision_only | safety)
+        order = ['opw_parameters', 'constraints', 'joint_meshes', 'base_mesh', 'base_transform', 'tool_mesh', 'tool_transform', 'collision_environment',
+                 'safety' if b.path.endswith('with_safety') else 'first_collision_only']
+        ctx.require(b.arg_count == 9, 'nine constructor parameters of ' + b.path)
+        tys = [b.local_ty(i) for i in range(1, 10)]
+        ctx.require('Parameters' in tys[0] and 'Constraints' in tys[1] and 'TriMesh; 6]' in tys[2] and 'TriMesh' in tys[3] and 'Isometry' in tys[4] and
+                    'TriMesh' in tys[5] and 'Isometry' in tys[6] and 'CollisionBody' in tys[7], 'constructor parameter types of ' + b.path)
+        params = {n: i + 1 for i, n in enumerate(order)}
         ret = strip(b.return_term())
         ctx.require(isinstance(ret, tuple) and ret[0] == 'agg' and ret[1].endswith('KinematicsWithShape'), 'constructor returns a KinematicsWithShape aggregate')
         fields = dict(zip([f['name'] for f in prog.adts[KWS]['variants'][0]['fields']], ret[2:]))
@@ -149,7 +154,6 @@ def _stack(ctx, prog):
             # mode chosen by first_collision_only: true -> FirstCollisionOnly
             modes = {}
             if ok:
-                l = [x for x, n in b.names.items() if n == 'first_collision_only']
                 # the argument local has two defs guarded by the flag
                 arg_defs = _defs_of_operand_local(b, sf)
                 for d in arg_defs:
